@@ -59,7 +59,7 @@ func gohbaseGoroutines() (n int, dump string) {
 
 type c19Case struct {
 	Seed    int64
-	Point   string // instant | before-dial | during-dial | during-probe | during-meta-lookup | during-backoff | zk-failing | zk-blocked | scanner-open | batch
+	Point   string // instant | before-dial | during-dial | during-probe | during-meta-lookup | during-backoff | during-long-backoff | zk-failing | zk-blocked | scanner-open | batch
 	Callers int
 	DelayUS int
 }
@@ -106,6 +106,7 @@ func runC19Case(c *fw.Ctx, id string, cs c19Case) {
 	var fired int32
 	once := func() bool { return atomic.CompareAndSwapInt32(&fired, 0, 1) }
 	logf := func(msg string) {}
+	var longBackoffOp atomic.Value
 	switch cs.Point {
 	case "before-dial":
 		logf = func(msg string) {
@@ -152,6 +153,22 @@ func runC19Case(c *fw.Ctx, id string, cs c19Case) {
 			}
 			return nil
 		}
+	case "during-long-backoff":
+		// every get/put/batch action is answered "region too busy" for good; Close
+		// arrives when some call has just failed for the ninth time, i.e. at the
+		// beginning of a retry back-off sleep of 16ms * 2^8 = 4.096s
+		var perOp sync.Map
+		cl.OnAction = func(req *sim.Request, a *sim.Action) *sim.Exc {
+			if a.OpID == "" {
+				return nil
+			}
+			v, _ := perOp.LoadOrStore(a.OpID, new(int32))
+			if atomic.AddInt32(v.(*int32), 1) == 9 && once() {
+				longBackoffOp.Store(a.OpID)
+				fire()
+			}
+			return &sim.Exc{Class: sim.ExcTooBusy}
+		}
 	case "during-establish-backoff":
 		// rs1 refuses connections: the regions it hosts keep failing to be
 		// established; Close arrives while an establisher sleeps between attempts
@@ -189,6 +206,7 @@ func runC19Case(c *fw.Ctx, id string, cs c19Case) {
 		gohbase.RegionLookupTimeout(2*time.Second), gohbase.RegionReadTimeout(2*time.Second))
 	type callRec struct {
 		kind     string
+		opid     string
 		start    time.Time
 		end      time.Time
 		err      error
@@ -206,6 +224,7 @@ func runC19Case(c *fw.Ctx, id string, cs c19Case) {
 		ctx := context.Background()
 		key := string([]byte{byte('a' + rr.Intn(26)), byte('0' + rr.Intn(10))})
 		opid := fmt.Sprintf("%s%s-%d-%d", sim.OpIDPrefix, id, g, k)
+		rec.opid = opid
 		kinds := []string{"get", "put", "batch", "scan", "get", "put", "batch", "scan", "cache-regions", "scan-abandon"}
 		rec.kind = kinds[rr.Intn(len(kinds))]
 		if cs.Point == "scanner-open" {
@@ -321,7 +340,7 @@ func runC19Case(c *fw.Ctx, id string, cs c19Case) {
 		select {
 		case <-trigger:
 			time.Sleep(time.Duration(cs.DelayUS%500) * time.Microsecond)
-		case <-time.After(5 * time.Second):
+		case <-time.After(12 * time.Second):
 			c.Inconclusive("close-point-not-reached:" + cs.Point)
 		}
 	}
@@ -363,6 +382,21 @@ func runC19Case(c *fw.Ctx, id string, cs c19Case) {
 	}
 	// calls that were running at or started after Close: error identity
 	mu.Lock()
+	if fired, _ := longBackoffOp.Load().(string); fired != "" {
+		// the call that had just begun a 4.096s back-off sleep when Close was called
+		for _, rec := range calls {
+			if fired != rec.opid && !(rec.kind == "batch" && strings.HasPrefix(fired, rec.opid+"-")) {
+				continue
+			}
+			c.Count("calls_in_a_long_backoff_at_close", 1)
+			if atomic.LoadInt32(&rec.returned) == 1 && rec.end.After(tClosed) {
+				if d := rec.end.Sub(tClosed); d > 2*time.Second {
+					c.Violate(id, "close:in-flight-call-sleeps-on-after-close:"+rec.kind, fmt.Sprintf("a %s that was %v into a 4.096s retry back-off when Close was called returned %v after Close had returned (err=%v): %s",
+						rec.kind, tClose.Sub(rec.start).Round(time.Millisecond), d.Round(time.Millisecond), rec.err, cs), cs.String())
+				}
+			}
+		}
+	}
 	for _, rec := range calls {
 		if atomic.LoadInt32(&rec.returned) == 0 {
 			continue
@@ -490,12 +524,12 @@ func init() {
 		},
 		Floors: func(tier string) map[string]int64 {
 			return map[string]int64{"runs": 200, "close_point_before-dial": 3, "close_point_during-dial": 3, "close_point_during-probe": 3,
-				"close_point_during-meta-lookup": 3, "close_point_during-backoff": 3, "close_point_zk-failing": 3, "close_point_zk-blocked": 3, "close_point_during-establish-backoff": 3, "lonely_splits_before_close": 3, "abandoned_renewing_scanners": 5, "close_point_instant": 20,
+				"close_point_during-meta-lookup": 3, "close_point_during-backoff": 3, "close_point_zk-failing": 3, "close_point_zk-blocked": 3, "close_point_during-establish-backoff": 3, "close_point_during-long-backoff": 3, "calls_in_a_long_backoff_at_close": 3, "lonely_splits_before_close": 3, "abandoned_renewing_scanners": 5, "close_point_instant": 20,
 				"calls_in_flight_at_close": 50, "post_close_calls": 60, "connections_opened": 60, "goroutine_census_checks": 50}
 		},
 		Run: func(c *fw.Ctx) {
 			r := c.Rand("c19")
-			points := []string{"before-dial", "during-dial", "during-probe", "during-meta-lookup", "during-backoff", "during-establish-backoff", "zk-failing", "zk-blocked", "after-lonely-split", "scanner-open", "batch"}
+			points := []string{"before-dial", "during-dial", "during-probe", "during-meta-lookup", "during-backoff", "during-long-backoff", "during-establish-backoff", "zk-failing", "zk-blocked", "after-lonely-split", "scanner-open", "batch"}
 			var cases []c19Case
 			for rep := 0; rep < c.Pick(12, 80); rep++ {
 				for _, p := range points {
